@@ -1,4 +1,5 @@
 import Glom.Driver.InterpRun
+import Glom.Spec.Lexical
 namespace Glom.C07.Driver
 open Lean Glom.Interp Glom.Interp.Codec Glom.Interp.Run
 
@@ -15,7 +16,11 @@ def run (j : Json) : Except String Json := do
   let untouched := (j.getObjValAs? Bool "impl_scope_untouched").toOption.getD true
   let repeatSame := (j.getObjValAs? Bool "impl_repeat_same").toOption.getD true
   let agree := resEq mres c.implRes && logAgree
-  let holds := resEq mres c.implRes && untouched && repeatSame
+  -- the property is evaluated against the reference semantics: the lexical, environment-passing
+  -- interpreter (`interp` on the canonical scope `Obs`), proved equal to the frames model
+  let (_, rres) := glomTopLex prims (fuelFor c.spec) c.spec c.target c.scope {}
+  let refRes : Except String V := match rres with | .ok v => .ok v | .error e => .error e.cls
+  let holds := resEq refRes c.implRes && untouched && repeatSame
   return Json.mkObj [("agree", agree), ("holds", holds),
     ("why", if !untouched then "the caller's scope mapping was modified"
             else if !repeatSame then "a second identical call behaved differently (state outlived the call)"
